@@ -98,11 +98,6 @@ func (g *gen) drawTypedefs() {
 		}
 		for i := 0; i < n; i++ {
 			w := pick(g, tdWords, "td-name")
-			name := w
-			for k := 2; m.tdNames[name]; k++ {
-				name = fmt.Sprintf("%s%d", w, k)
-			}
-			m.tdNames[name] = true
 			var t *typ
 			ctx := typeCtx{m: m, noRef: true}
 			switch g.weighted("td-kind", 25, 20, 35) {
@@ -125,6 +120,39 @@ func (g *gen) drawTypedefs() {
 			default:
 				t = g.drawType(ctx, "td-type")
 			}
+			// the name: new in this module; a typedef of an enumerated type (enumeration, identityref)
+			// named like an enumerated typedef of another module is collision class typedef-enum-same-name
+			clash := func(n string) bool {
+				if k := resolved(t).kind; k != "enumeration" && k != "identityref" {
+					return false
+				}
+				for _, om := range g.mods {
+					for _, otd := range om.typedefs {
+						if k := resolved(otd.t).kind; om != m && otd.name == n && (k == "enumeration" || k == "identityref") {
+							return true
+						}
+					}
+				}
+				return false
+			}
+			name := w
+			allowed := false
+			for k := 2; ; k++ {
+				if !m.tdNames[name] {
+					if !clash(name) {
+						break
+					}
+					if allowed || g.use(ClTypedefSameName) {
+						if !allowed {
+							g.hit(ClTypedefSameName)
+						}
+						allowed = true
+						break
+					}
+				}
+				name = fmt.Sprintf("%s%d", w, k)
+			}
+			m.tdNames[name] = true
 			td := &typedef{m: m, name: name, t: t}
 			st := m.top.add("typedef", name)
 			t.render(st, m)
